@@ -40,6 +40,7 @@ structure Hist where
   concBlocks : Nat := 0
   concOdd : Nat := 0               -- blocks whose outcome no serial order of the requests explains
   note : Option String := none
+  concMembers : Option (List (Nat × Nat)) := none   -- (connection, session number) right after a concurrent block, until the next event that is not a tick
 deriving Inhabited
 
 def parseHeader (toks : List String) : Nat × Cfg :=
@@ -199,6 +200,25 @@ def ghostBlame (iev : IEv) (ds : List Delivery) (outcome : Outcome) (what : Stri
   (if what == "counters" then [("C10", "id-counter-differs")] else [])
 
 def processBlock (h : Hist) (b : Block) (outcome : Outcome) : Hist :=
+  -- the frames that follow a concurrent block at once: each reaches exactly the connections of the session's members
+  -- (judged on the membership the implementation itself reports, so also when no serial order explained the block)
+  let h := match h.concMembers, b.ev with
+    | some ms, ["tick", sid] =>
+      match sid.toNat? with
+      | none => h
+      | some sid =>
+        let pumped := b.extra.filterMap fun (x : String) => match x.splitOn " " with | ["pumped", c] => c.toNat? | _ => none
+        let members := ms.filterMap fun (m : Nat × Nat) => if m.2 == sid then some m.1 else none
+        let missed := members.filter fun c => !pumped.contains c
+        let strangers := pumped.filter fun c => !members.contains c
+        let h := if missed.isEmpty then h else
+          { h with concViol := h.concViol.push ("C11", "frame-does-not-reach-member",
+              s!"after the concurrent block the frame of session {sid} did not reach the connections {missed} of its members (members' connections {members}, reached {pumped})") }
+        if strangers.isEmpty then h else
+          { h with concViol := h.concViol.push ("C03", "frame-of-another-session-reaches-connection",
+              s!"after the concurrent block the frame of session {sid} drove connections {strangers}, which are not in it (members' connections {members})") }
+    | some _, _ => { h with concMembers := none }
+    | none, _ => h
   let evNo := h.nEvents
   let h := { h with nEvents := h.nEvents + 1, nDeliv := h.nDeliv + b.ds.length,
                     extras := b.extra.foldl (fun a x => a.push (evNo, x)) h.extras }
@@ -300,6 +320,9 @@ def processConc (h : Hist) (b : Block) (otoks : List String) : Hist :=
              concViol := h.concViol.push ("C09", "deadlock", (" ".intercalate b.ev) ++ " :: tasks " ++ " ".intercalate rest) }
   | _ =>
   -- C07 at the quiescent moment after the block, whatever else is found out about it
+  let cm : Option (List (Nat × Nat)) := b.quies.map fun (q : List (Nat × Nat × Bool) × List (Nat × Nat)) =>
+    q.1.filterMap fun (m : Nat × Nat × Bool) => if m.2.2 then some (m.1, m.2.1) else none
+  let h := { h with concMembers := cm }
   let h := match b.quies with
     | none => h
     | some (members, counts) =>
